@@ -21,9 +21,11 @@ def load_claims():
     sys.path.insert(0, VERIF)
     sys.dont_write_bytecode = True
     out = {}
+    # only modules reviewed and confirmed green on the unchanged tree are registered
+    accepted = set(open(os.path.join(VERIF, "rules", "ACCEPTED")).read().split())
     for i in range(1, 35):
         pid = "C%02d" % i
-        if not os.path.exists(os.path.join(VERIF, "rules", pid + ".py")):
+        if not os.path.exists(os.path.join(VERIF, "rules", pid + ".py")) or pid not in accepted:
             continue
         mod = importlib.import_module("rules." + pid)
         c = dict(getattr(mod, "CLAIM"))
